@@ -416,3 +416,14 @@ def r13(ctx, R):
 def r14(ctx, R):
     from . import c20
     c20.r6(ctx, R)
+
+
+@rule('C09', 'C09.R15', 'a rejected step is retried with ITS proposal: the step-size spreader is told to take the step size from the first RESTARTED step exactly when the block is not restarted from its first step (with restart_from_first_step every step carries the flag, so "first restarted" would be slot 0, which usually passed and proposes a larger step)', floor=1)
+def r15(ctx, R):
+    repo = ctx.repo
+    rel = CC + 'basic_restarting.py'
+    fn = repo.func(rel, 'BasicRestarting.dependencies')
+    w = f'{rel}:BasicRestarting.dependencies'
+    R.fn(w)
+    vals = [ast.unparse(v) for d in ast.walk(fn) if isinstance(d, ast.Dict) for k, v in zip(d.keys, d.values) if isinstance(k, ast.Constant) and k.value == 'spread_from_first_restarted']
+    R.check(vals == ['not self.params.restart_from_first_step'], "BasicRestarting.dependencies :: 'spread_from_first_restarted' = not restart_from_first_step", w, 'not self.params.restart_from_first_step', vals)
